@@ -227,24 +227,23 @@ Qed.
 (* ------------------------------------------------------------------------------------- *)
 (** * VPNv4 / VPNv6 (1|2, 128) *)
 
-(** the field ranges: a prefix length netaddr accepts for the family; a label stack that does
-    not end in label 0 (known finding C08-label0-no-bos: that one is written without the
-    bottom-of-stack bit) *)
-Definition vroute_ok (v6 : bool) (r : vroute) : bool :=
-  (v_len r <=? abits v6) && negb (last_label (v_labels r) =? 0).
-Definition vroute_wd_ok (v6 : bool) (r : vroute) : bool := v_len r <=? abits v6.
+(** the one field range the code does not enforce: a label stack that does not end in label 0
+    (known finding C08-label0-no-bos: that one is written without the bottom-of-stack bit).
+    The prefix length is enforced: above 32 / 128 construction fails ([pfx_len_ok]). *)
+Definition vroute_ok (r : vroute) : bool := negb (last_label (v_labels r) =? 0).
 
 Lemma step_labeled_vroute v6 withdraw r b rest :
   construct_vroute v6 withdraw r = Ok b ->
-  (if withdraw then vroute_wd_ok v6 r else vroute_ok v6 r) = true ->
+  (withdraw = false -> vroute_ok r = true) ->
   step_labeled withdraw true (abits v6) (b ++ rest) = Some rest /\ wf_bytes b /\ b <> [].
 Proof.
   unfold construct_vroute. intros H G.
   apply mbind_ok in H as (lab & Hlab & H). apply mbind_ok in H as (rdb & Hrd & H).
   set (pfx := if v6 then prefix6_octets (v_addr r) (v_len r) else prefix4_octets (v_addr r) (v_len r)) in *.
+  destruct (pfx_len_ok v6 (v_len r)) eqn:Hok; [|discriminate]. cbn [negb] in H.
   destruct (255 <? v_len r + len (lab ++ rdb) * 8) eqn:L; [discriminate|]. apply mOk_inj in H. subst b.
   destruct (len_construct_rd _ _ Hrd) as [Lrd Wrd].
-  assert (Hlen : v_len r <= abits v6) by (destruct withdraw; unfold vroute_ok, vroute_wd_ok in G; lia).
+  assert (Hlen : v_len r <= abits v6) by (unfold pfx_len_ok in Hok; destruct v6; cbn [abits]; lia).
   destruct (len_pfx_octets v6 (v_addr r) (v_len r) Hlen) as [Lp Wp]. fold pfx in Lp, Wp.
   rewrite len_app, Lrd in L.
   assert (K : exists n, len lab = 3 * n /\ wf_bytes lab /\
@@ -253,7 +252,7 @@ Proof.
   { destruct withdraw.
     - apply mOk_inj in Hlab. subst lab. exists 1. repeat split.
       apply wf_cons; split; [lia|]. apply wf_cons; split; [lia|]. apply wf_cons; split; [lia | constructor].
-    - unfold vroute_ok in G.
+    - specialize (G eq_refl). unfold vroute_ok in G.
       assert (Hne : last_label (v_labels r) <> 0) by lia.
       assert (Hn : (length (v_labels r) <= 11)%nat).
       { destruct (labels_constructed _ _ Hlab Hne (length (v_labels r)) [] (Nat.le_refl _)) as (_ & Hl3 & _).
@@ -278,7 +277,7 @@ Proof.
 Qed.
 
 Lemma construct_vpn_valid v6 withdraw : forall rs nlri, construct_vpn v6 withdraw rs = Ok nlri ->
-  forallb (if withdraw then vroute_wd_ok v6 else vroute_ok v6) rs = true ->
+  (withdraw = false -> forallb vroute_ok rs = true) ->
   valid_mp_nlri withdraw (FVpn (abits v6)) nlri = true /\ wf_bytes nlri.
 Proof.
   intros rs nlri H G.
@@ -287,10 +286,13 @@ Proof.
   { revert nlri H G. induction rs as [|r rs IH]; intros nlri H G.
     - apply mOk_inj in H. subst. exists []. split; [reflexivity | intros e []].
     - cbn [construct_vpn] in H. apply mbind_ok in H as (b & Hb & H). apply mbind_ok in H as (bt & Ht & H).
-      apply mOk_inj in H. subst nlri. cbn [forallb] in G. apply andb_true_iff in G as [G1 G2].
+      apply mOk_inj in H. subst nlri.
+      assert (G1' : withdraw = false -> vroute_ok r = true).
+      { intros E. specialize (G E). cbn [forallb] in G. apply andb_true_iff in G as [G1 _]. exact G1. }
+      assert (G2 : withdraw = false -> forallb vroute_ok rs = true).
+      { intros E. specialize (G E). cbn [forallb] in G. apply andb_true_iff in G as [_ G2]. exact G2. }
       destruct (IH bt Ht G2) as (elems & -> & He). exists (b :: elems). split; [reflexivity|].
       intros e [<- | Hin]; [|apply He; exact Hin].
-      assert (G1' : (if withdraw then vroute_wd_ok v6 r else vroute_ok v6 r) = true) by (destruct withdraw; exact G1).
       split; [split|].
       + apply (step_labeled_vroute v6 withdraw r b [] Hb G1').
       + intros rest. apply (step_labeled_vroute v6 withdraw r b rest Hb G1').
@@ -309,12 +311,12 @@ Proof. destruct v6; reflexivity. Qed.
 Lemma vpn_afi_small v6 : vpn_afi v6 < 65536.
 Proof. destruct v6; reflexivity. Qed.
 
-Theorem reachvpn_block c v6 asn an ip rs b : forallb (vroute_ok v6) rs = true ->
+Theorem reachvpn_block c v6 asn an ip rs b : forallb vroute_ok rs = true ->
   reachvpn_construct v6 asn an ip rs = Ok b -> attr_block c c_ATTR_MpReachNLRI_ID b.
 Proof.
   intros G. unfold reachvpn_construct. intros H.
   apply mbind_ok in H as (nh & Hnh & H). apply mbind_ok in H as (nlri & Hn & H).
-  destruct (construct_vpn_valid v6 false rs nlri Hn G) as [V W].
+  destruct (construct_vpn_valid v6 false rs nlri Hn (fun _ => G)) as [V W].
   unfold construct_vpn_nexthop in Hnh. destruct ((65535 <? asn) || (2 ^ 32 <=? an)); [discriminate|].
   apply mOk_inj in Hnh.
   assert (Lnh : len nh = if v6 then 24 else 12).
@@ -327,11 +329,11 @@ Proof.
   - rewrite family_vpn. exact V.
 Qed.
 
-Theorem unreachvpn_block c v6 rs b : forallb (vroute_wd_ok v6) rs = true ->
+Theorem unreachvpn_block c v6 rs b :
   unreachvpn_construct v6 rs = Ok (Some b) -> attr_block c c_ATTR_MpUnReachNLRI_ID b.
 Proof.
-  intros G. unfold unreachvpn_construct. intros H. apply mbind_ok in H as (nlri & Hn & H).
-  destruct (construct_vpn_valid v6 true rs nlri Hn G) as [V W].
+  unfold unreachvpn_construct. intros H. apply mbind_ok in H as (nlri & Hn & H).
+  destruct (construct_vpn_valid v6 true rs nlri Hn ltac:(discriminate)) as [V W].
   destruct nlri as [|x nl]; [discriminate|].
   apply mbind_ok in H as (b' & H & Hb). apply mOk_inj in Hb. injection Hb as <-.
   eapply unreach_attr_block; [exact H | apply vpn_afi_small | reflexivity | exact W |].
@@ -341,20 +343,19 @@ Qed.
 (* ------------------------------------------------------------------------------------- *)
 (** * labeled unicast (1|2, 4) *)
 
-Definition lroute_ok (v6 : bool) (r : lroute) : bool :=
-  (l_len r <=? abits v6) && negb (last_label (l_labels r) =? 0).
-Definition lroute_wd_ok (v6 : bool) (r : lroute) : bool := l_len r <=? abits v6.
+Definition lroute_ok (r : lroute) : bool := negb (last_label (l_labels r) =? 0).
 
 Lemma step_labeled_lroute v6 withdraw r b rest :
   construct_lroute v6 withdraw r = Ok b ->
-  (if withdraw then lroute_wd_ok v6 r else lroute_ok v6 r) = true ->
+  (withdraw = false -> lroute_ok r = true) ->
   step_labeled withdraw false (abits v6) (b ++ rest) = Some rest /\ wf_bytes b /\ b <> [].
 Proof.
   unfold construct_lroute. intros H G.
   apply mbind_ok in H as (lab & Hlab & H).
   set (pfx := if v6 then prefix6_octets (l_addr r) (l_len r) else prefix4_octets (l_addr r) (l_len r)) in *.
+  destruct (pfx_len_ok v6 (l_len r)) eqn:Hok; [|discriminate]. cbn [negb] in H.
   destruct (255 <? 8 * len lab + l_len r) eqn:L; [discriminate|]. apply mOk_inj in H. subst b.
-  assert (Hlen : l_len r <= abits v6) by (destruct withdraw; unfold lroute_ok, lroute_wd_ok in G; lia).
+  assert (Hlen : l_len r <= abits v6) by (unfold pfx_len_ok in Hok; destruct v6; cbn [abits]; lia).
   destruct (len_pfx_octets v6 (l_addr r) (l_len r) Hlen) as [Lp Wp]. fold pfx in Lp, Wp.
   assert (K : exists n, len lab = 3 * n /\ wf_bytes lab /\
                         (if withdraw then match Walker.split 3 (lab ++ pfx) with Some (_, t) => Some (1, t) | None => None end
@@ -362,7 +363,7 @@ Proof.
   { destruct withdraw.
     - apply mOk_inj in Hlab. subst lab. exists 1. repeat split.
       apply wf_cons; split; [lia|]. apply wf_cons; split; [lia|]. apply wf_cons; split; [lia | constructor].
-    - unfold lroute_ok in G.
+    - specialize (G eq_refl). unfold lroute_ok in G.
       assert (Hne : last_label (l_labels r) <> 0) by lia.
       assert (Hn : (length (l_labels r) <= 11)%nat).
       { destruct (labels_constructed _ _ Hlab Hne (length (l_labels r)) [] (Nat.le_refl _)) as (_ & Hl3 & _).
@@ -387,7 +388,7 @@ Proof.
 Qed.
 
 Lemma construct_lu_valid v6 withdraw : forall rs nlri, construct_lu v6 withdraw rs = Ok nlri ->
-  forallb (if withdraw then lroute_wd_ok v6 else lroute_ok v6) rs = true ->
+  (withdraw = false -> forallb lroute_ok rs = true) ->
   valid_mp_nlri withdraw (FLabeled (abits v6)) nlri = true /\ wf_bytes nlri.
 Proof.
   intros rs nlri H G.
@@ -396,10 +397,13 @@ Proof.
   { revert nlri H G. induction rs as [|r rs IH]; intros nlri H G.
     - apply mOk_inj in H. subst. exists []. split; [reflexivity | intros e []].
     - cbn [construct_lu] in H. apply mbind_ok in H as (b & Hb & H). apply mbind_ok in H as (bt & Ht & H).
-      apply mOk_inj in H. subst nlri. cbn [forallb] in G. apply andb_true_iff in G as [G1 G2].
+      apply mOk_inj in H. subst nlri.
+      assert (G1' : withdraw = false -> lroute_ok r = true).
+      { intros E. specialize (G E). cbn [forallb] in G. apply andb_true_iff in G as [G1 _]. exact G1. }
+      assert (G2 : withdraw = false -> forallb lroute_ok rs = true).
+      { intros E. specialize (G E). cbn [forallb] in G. apply andb_true_iff in G as [_ G2]. exact G2. }
       destruct (IH bt Ht G2) as (elems & -> & He). exists (b :: elems). split; [reflexivity|].
       intros e [<- | Hin]; [|apply He; exact Hin].
-      assert (G1' : (if withdraw then lroute_wd_ok v6 r else lroute_ok v6 r) = true) by (destruct withdraw; exact G1).
       split; [split|].
       + apply (step_labeled_lroute v6 withdraw r b [] Hb G1').
       + intros rest. apply (step_labeled_lroute v6 withdraw r b rest Hb G1').
@@ -411,11 +415,11 @@ Proof.
     + apply IH. intros e0 H0. apply He. right. exact H0.
 Qed.
 
-Theorem reachlu_block c v6 ip rs b : forallb (lroute_ok v6) rs = true ->
+Theorem reachlu_block c v6 ip rs b : forallb lroute_ok rs = true ->
   reachlu_construct v6 ip rs = Ok (Some b) -> attr_block c c_ATTR_MpReachNLRI_ID b.
 Proof.
   intros G. unfold reachlu_construct. intros H. apply mbind_ok in H as (nlri & Hn & H).
-  destruct (construct_lu_valid v6 false rs nlri Hn G) as [V W].
+  destruct (construct_lu_valid v6 false rs nlri Hn (fun _ => G)) as [V W].
   destruct nlri as [|x nl]; [discriminate|].
   apply mbind_ok in H as (b' & H & Hb). apply mOk_inj in Hb. injection Hb as <-.
   eapply reach_attr_block; [exact H | apply vpn_afi_small | reflexivity | destruct v6; apply wf_be | exact W | |].
@@ -423,14 +427,14 @@ Proof.
   - rewrite family_lu. exact V.
 Qed.
 
-Theorem unreachlu_block c v6 rs b : forallb (lroute_wd_ok v6) rs = true ->
+Theorem unreachlu_block c v6 rs b :
   unreachlu_construct v6 rs = Ok (Some b) -> attr_block c c_ATTR_MpUnReachNLRI_ID b.
 Proof.
-  intros G. unfold unreachlu_construct. destruct v6; [discriminate|].
+  unfold unreachlu_construct. destruct v6; [discriminate|].
   destruct rs as [|r rs]; [discriminate|]. intros H.
   apply mbind_ok in H as (nlri & Hn & H). apply mbind_ok in H as (b' & H & Hb).
   apply mOk_inj in Hb. injection Hb as <-.
-  destruct (construct_lu_valid false true (r :: rs) nlri Hn G) as [V W].
+  destruct (construct_lu_valid false true (r :: rs) nlri Hn ltac:(discriminate)) as [V W].
   eapply unreach_attr_block; [exact H | reflexivity | reflexivity | exact W | exact V].
 Qed.
 
@@ -441,23 +445,16 @@ Qed.
 Lemma block_valid c ty b : attr_block c ty b -> valid_attrs c b = true /\ wf_bytes b.
 Proof. intros H. split; [eapply attr_block_valid | eapply attr_block_wf]; exact H. Qed.
 
-(** IPv4 prefix length above 32 (VPNv4, labeled unicast): NLRI.construct_prefix_v4 takes the
-    length from int(text) and checks nothing - four prefix octets are written whatever the
-    length octet announces.  10.0.0.0/40: the route says 128 bits = 16 octets, 15 follow. *)
-Definition r_vpn4_len40 : vroute := mk_vroute [25] (RdAs 100 100) 167772160 40.
-Lemma reachvpn_prefix_length_refuted : exists b,
-  reachvpn_construct false 0 0 167772161 [r_vpn4_len40] = Ok b /\ valid_attrs cfg0 b = false.
-Proof. eexists. split; vm_compute; reflexivity. Qed.
-Lemma unreachvpn_prefix_length_refuted : exists b,
-  unreachvpn_construct false [r_vpn4_len40] = Ok (Some b) /\ valid_attrs cfg0 b = false.
-Proof. eexists. split; vm_compute; reflexivity. Qed.
-Definition r_lu4_len40 : lroute := mk_lroute [25] 167772160 40.
-Lemma reachlu_prefix_length_refuted : exists b,
-  reachlu_construct false 167772161 [r_lu4_len40] = Ok (Some b) /\ valid_attrs cfg0 b = false.
-Proof. eexists. split; vm_compute; reflexivity. Qed.
-Lemma unreachlu_prefix_length_refuted : exists b,
-  unreachlu_construct false [r_lu4_len40] = Ok (Some b) /\ valid_attrs cfg0 b = false.
-Proof. eexists. split; vm_compute; reflexivity. Qed.
+(** a prefix length that does not fit the address is a construction error (it used to be written
+    as it stood: fix: a prefix length outside the address size must be an error ...) *)
+Lemma prefix_length_is_error :
+  reachvpn_construct false 0 0 167772161 [mk_vroute [25] (RdAs 100 100) 167772160 40] = Exc /\
+  unreachvpn_construct false [mk_vroute [25] (RdAs 100 100) 167772160 33] = Exc /\
+  reachvpn_construct true 0 0 1 [mk_vroute [25] (RdAs 100 100) (2 ^ 125) 129] = Exc /\
+  reachlu_construct false 167772161 [mk_lroute [25] 167772160 40] = Exc /\
+  unreachlu_construct false [mk_lroute [25] 167772160 33] = Exc /\
+  reachlu_construct true 1 [mk_lroute [25] (2 ^ 125) 129] = Exc.
+Proof. vm_compute. repeat split. Qed.
 
 (** a label stack ending in label 0 has no bottom-of-stack bit (known finding C08-label0-no-bos) *)
 Lemma reachvpn_label0_refuted : exists b,
@@ -481,16 +478,15 @@ Definition ex_vroutes : list vroute :=
   [mk_vroute [25; 0; 1048575] (RdAs 100 100) 167772160 8; mk_vroute [16] (RdIp 167772161 7) 0 0;
    mk_vroute [3] (RdAs 4200000000 1) 3232235777 32].
 Lemma reachvpn_example : exists b,
-  reachvpn_construct false 0 0 167772161 ex_vroutes = Ok b /\ forallb (vroute_ok false) ex_vroutes = true /\
+  reachvpn_construct false 0 0 167772161 ex_vroutes = Ok b /\ forallb vroute_ok ex_vroutes = true /\
   len b = 68 /\ valid_attrs cfg0 b = true.
 Proof. eexists. split; [vm_compute; reflexivity|]. repeat split; vm_compute; reflexivity. Qed.
 Lemma unreachvpn_example : exists b,
-  unreachvpn_construct true [mk_vroute [] (RdAs 100 100) (2 ^ 125) 61] = Ok (Some b) /\
-  forallb (vroute_wd_ok true) [mk_vroute [] (RdAs 100 100) (2 ^ 125) 61] = true /\ valid_attrs cfg0 b = true.
-Proof. eexists. split; [vm_compute; reflexivity|]. repeat split; vm_compute; reflexivity. Qed.
+  unreachvpn_construct true [mk_vroute [] (RdAs 100 100) (2 ^ 125) 61] = Ok (Some b) /\ valid_attrs cfg0 b = true.
+Proof. eexists. split; vm_compute; reflexivity. Qed.
 Definition ex_lroutes : list lroute := [mk_lroute [25; 26] (2 ^ 125) 64; mk_lroute [7] 0 0].
 Lemma reachlu_example : exists b,
-  reachlu_construct true (2 ^ 125 + 1) ex_lroutes = Ok (Some b) /\ forallb (lroute_ok true) ex_lroutes = true /\
+  reachlu_construct true (2 ^ 125 + 1) ex_lroutes = Ok (Some b) /\ forallb lroute_ok ex_lroutes = true /\
   valid_attrs cfg0 b = true.
 Proof. eexists. split; [vm_compute; reflexivity|]. repeat split; vm_compute; reflexivity. Qed.
 Lemma unreachlu_example : exists b,
@@ -520,16 +516,14 @@ Lemma mp_ipv6_valid c rs : routes6_ok rs = true ->
   (forall b, unreach6u_construct rs = Ok (Some b) -> attr_block c c_ATTR_MpUnReachNLRI_ID b).
 Proof. intros H. split; intros; [eapply reach6u_block | eapply unreach6u_block]; eassumption. Qed.
 Lemma mp_vpn_valid c v6 rs :
-  (forallb (vroute_ok v6) rs = true -> forall asn an ip b,
+  (forallb vroute_ok rs = true -> forall asn an ip b,
      reachvpn_construct v6 asn an ip rs = Ok b -> attr_block c c_ATTR_MpReachNLRI_ID b) /\
-  (forallb (vroute_wd_ok v6) rs = true -> forall b,
-     unreachvpn_construct v6 rs = Ok (Some b) -> attr_block c c_ATTR_MpUnReachNLRI_ID b).
+  (forall b, unreachvpn_construct v6 rs = Ok (Some b) -> attr_block c c_ATTR_MpUnReachNLRI_ID b).
 Proof. split; intros; [eapply reachvpn_block | eapply unreachvpn_block]; eassumption. Qed.
 Lemma mp_lu_valid c v6 rs :
-  (forallb (lroute_ok v6) rs = true -> forall ip b,
+  (forallb lroute_ok rs = true -> forall ip b,
      reachlu_construct v6 ip rs = Ok (Some b) -> attr_block c c_ATTR_MpReachNLRI_ID b) /\
-  (forallb (lroute_wd_ok v6) rs = true -> forall b,
-     unreachlu_construct v6 rs = Ok (Some b) -> attr_block c c_ATTR_MpUnReachNLRI_ID b).
+  (forall b, unreachlu_construct v6 rs = Ok (Some b) -> attr_block c c_ATTR_MpUnReachNLRI_ID b).
 Proof. split; intros; [eapply reachlu_block | eapply unreachlu_block]; eassumption. Qed.
 Lemma mp_label0_refuted :
   (exists b, reachvpn_construct false 0 0 167772161 [mk_vroute [0] (RdAs 100 1) 167772160 8] = Ok b /\
@@ -537,12 +531,3 @@ Lemma mp_label0_refuted :
   (exists b, reachlu_construct false 167772161 [mk_lroute [0] 3221225472 8] = Ok (Some b) /\
              valid_attrs cfg0 b = false).
 Proof. exact (conj reachvpn_label0_refuted reachlu_label0_refuted). Qed.
-Lemma mp_labeled4_prefix_length_refuted :
-  (exists b, reachvpn_construct false 0 0 167772161 [r_vpn4_len40] = Ok b /\ valid_attrs cfg0 b = false) /\
-  (exists b, unreachvpn_construct false [r_vpn4_len40] = Ok (Some b) /\ valid_attrs cfg0 b = false) /\
-  (exists b, reachlu_construct false 167772161 [r_lu4_len40] = Ok (Some b) /\ valid_attrs cfg0 b = false) /\
-  (exists b, unreachlu_construct false [r_lu4_len40] = Ok (Some b) /\ valid_attrs cfg0 b = false).
-Proof.
-  exact (conj reachvpn_prefix_length_refuted (conj unreachvpn_prefix_length_refuted
-        (conj reachlu_prefix_length_refuted unreachlu_prefix_length_refuted))).
-Qed.
